@@ -72,10 +72,14 @@ func generate(prop, tier string, seed uint64, run int) *Scenario {
 		if tier == "thorough" && run < enumTotal() {
 			return genAPIEnum(prop, seed, run)
 		}
-		if pick < 80 {
+		if pick < 70 {
 			return genAPI(prop, seed, run, tier)
 		}
-		return genMix(prop, seed, run, mixOpts{lagfree: 0.5, apiChurn: 0.5, spellings: true, shapes: []int{0, 1}, maxOps: 24, watchFiles: 0.5, worldTasks: 1, faultAdd: 0.3})
+		if pick < 80 {
+			// watched paths that are renamed and deleted, with a kernel queue that overflows now and then
+			return genLifecycle(prop, seed, run, tier, 0, 0.3)
+		}
+		return genMix(prop, seed, run, mixOpts{lagfree: 0.5, apiChurn: 0.5, spellings: true, shapes: []int{0, 1}, maxOps: 24, watchFiles: 0.5, worldTasks: 1, faultAdd: 0.3, overflow: 0.2})
 	case "C05":
 		return genPending(prop, seed, run, tier)
 	case "C06":
